@@ -33,10 +33,16 @@ RULE = (
     "step-by-step drive of functional.beam_search_advance (fixed and varying widths, with/without lengths, "
     "ragged lengths produced by emulated eos); plus object-reuse histories: per table, every ordered pair "
     "(a, b) of a 16-entry configuration menu (width, eos, finish_all_paths, pad_value, max_iters, batch size "
-    "unset/1/2/3, initial state) on ONE module object - built for a, called with a, public attributes and "
-    "arguments changed to b, called, changed back to a, called - where the 2nd and 3rd results must satisfy "
-    "the per-result property and equal, column by column, what a fresh object returns (alternately the "
-    "unsubclassed module and the observing subclass); plus variants of one search: per table, for "
+    "unset/1/2/3, initial state) as a history of three calls a, b, a - on ONE module object when b differs "
+    "from a only in call arguments, otherwise with the middle call on a second newly constructed object that "
+    "shares the language-model object - where the 2nd and 3rd results must satisfy the per-result property and "
+    "equal, column by column, what a fresh object returns (alternately the unsubclassed module and the "
+    "observing subclass); reassigning __constants__ (width, eos, finish_all_paths, pad_value) on a live object "
+    "is executed and only counted; plus object lifecycle: per table, 10 constructor configurations (eos in "
+    "{0, V-1, unset, -V, -1} x {finish_all_paths False with default pad_value, True with pad_value 0}) on a "
+    "table LM with trainable parameters x {deepcopy, pickle, torch.save/load, used+deepcopy, eval+deepcopy, "
+    "state_dict into fresh / into an already used module / into a module with other options and weights, "
+    "double-float, scripted+jit.save/load, scripted+deepcopy} x 3 batches - each must equal the fresh object; plus variants of one search: per table, for "
     "eos in {unset, each token} x finish_all_paths x width in {1,3,V^T+3} x batch {3, unset, 1} the plain "
     "call is compared (slots and whole columns) with: eos as negative index, numpy integers, 0-dim tensor "
     "max_iters, integral floats (these three may be refused), constructor/call keywords, initial_state as "
@@ -58,9 +64,12 @@ ASSUMPTIONS = [
     "with zero-probability tokens, completeness is demanded for positive-probability sequences only",
     "the per-step observations use the documented subclass hook update_log_probs_for_step (identity); "
     "unsubclassed BeamSearch is run for the batch_size=None cases and must agree",
-    "object-reuse histories have length 3 (a, b, a) over a fixed menu; width/eos/finish_all_paths/pad_value "
-    "are changed by assigning the module's public attributes of the same names; padding contents are compared "
-    "only between reused and fresh objects (usable slots), not against a model",
+    "object-reuse histories have length 3 (a, b, a) over a fixed menu; a new constructor configuration is "
+    "obtained from a new object (reassigned __constants__ are counted in constants_reassigned_honoured/ignored, "
+    "never judged); padding contents are compared only between reused/copied and fresh objects (usable slots), "
+    "not against a model",
+    "lifecycle variants come from mc/guards.lifecycle_variants plus torch.jit.save/load and deepcopy of the "
+    "scripted module; RandomWalk is not driven by this check",
     "variants: spellings the documentation does not promise (numpy ints, 0-dim tensors, integral floats) may "
     "raise, but must mean the same search when accepted; default-dtype-float64 runs are compared at 1e-5 and "
     "skipped on near ties; graph leaks / memory are not checked",
@@ -114,6 +123,7 @@ def shards(tier, seed):
             out.append({"kind": "advance", "V": V, "T": T, "table": table})
             out.append({"kind": "reuse", "V": V, "T": T, "table": table})
             out.append({"kind": "variants", "V": V, "T": T, "table": table})
+            out.append({"kind": "lifecycle", "V": V, "T": T, "table": table})
     return out
 
 
@@ -435,11 +445,19 @@ def _new_object(lm, cfg, observed):
     return cls(lm, cfg["width"], eos=cfg["eos"], finish_all_paths=cfg["fap"], pad_value=_pad(cfg))
 
 
+_CONSTS = ("width", "eos", "fap", "pad_value")  # BeamSearch.__constants__: reassigning them is counted, not judged
+
+
 def _check_reuse_pair(ctx, model, lm, a, b, observed, tier, seed, fresh_cache=None):
-    """object built for configuration a; calls a, b, a.  The 2nd/3rd result must satisfy the per-result
-    property and equal (whole returned columns of the usable slots) what a fresh object returns."""
+    """Histories of three calls a, b, a.  If b differs from a only in call arguments (max_iters, batch size,
+    initial state) all three calls are made on ONE object built for a.  If b differs in a constructor option
+    (a ``__constants__`` attribute) the middle call is made on a second, newly constructed object that shares the
+    language model object with the first; additionally the constants are reassigned on a live third object and
+    the outcome is only counted.  Every judged 2nd/3rd result must satisfy the per-result property and equal
+    (whole returned columns of the usable slots) what a fresh object returns."""
     V = model.V
     changed = [d for d in _DIMS if a[d] != b[d]]
+    const_changed = [d for d in changed if d in _CONSTS]
     case = {"kind": "reuse", "V": V, "T": model.depth, "table": model.name, "seed": seed, "tier": tier,
             "first": dict(a, offs=list(a["offs"])), "second": dict(b, offs=list(b["offs"])), "observed": observed}
     fresh_cache = {} if fresh_cache is None else fresh_cache
@@ -454,10 +472,10 @@ def _check_reuse_pair(ctx, model, lm, a, b, observed, tier, seed, fresh_cache=No
             fresh_cache[key] = out
         return fresh_cache[key]
 
-    def call(cfg, bs, sig_extra):
+    def call(cfg, bs, sig_extra, ctx_=ctx):
         if bs is None:
             bs = _new_object(lm, cfg, False)
-        return _run_search(ctx, case, lm, cfg["width"], cfg["eos"], cfg["fap"], cfg["max_iters"], cfg["batch_size"],
+        return _run_search(ctx_, case, lm, cfg["width"], cfg["eos"], cfg["fap"], cfg["max_iters"], cfg["batch_size"],
                            cfg["offs"], isinstance(bs, ObservedBeamSearch), True, bs=bs, sig_extra=sig_extra)
 
     def fresh(cfg):
@@ -466,19 +484,27 @@ def _check_reuse_pair(ctx, model, lm, a, b, observed, tier, seed, fresh_cache=No
             fresh_cache[key] = call(cfg, None, {"reused_object": False})
         return fresh_cache[key]
 
+    def equal_to_fresh(got, cfg):
+        fr = fresh(cfg)
+        if fr is None or got is None:
+            return None
+        return all(_same_slots(x, y) for x, y in zip(got[0], fr[0])) and got[2] == fr[2]
+
     try:
-        bs = _new_object(lm, a, observed)
+        objs = {"A": _new_object(lm, a, observed)}
+        if const_changed:
+            objs["B"] = _new_object(lm, b, observed)
     except Exception as e:
         ctx.violation({"api": BS, "symptom": "raises", "type": type(e).__name__, "where": "constructor"}, case,
                       {"error": repr(e)[-300:]})
         return
-    for call_no, cfg in enumerate((a, b, a), start=1):
+    history = (("A", a), ("B" if const_changed else "A", b), ("A", a))
+    for call_no, (which, cfg) in enumerate(history, start=1):
         ctx.transitions += 1
-        ctx.state(("reuse", model.name, V, call_no) + tuple(str(cfg[d]) for d in _DIMS))
-        if call_no > 1:
-            _set_attrs(bs, cfg)
-        sig_extra = {"reused_object": call_no > 1, "changed": changed if call_no > 1 else []}
-        got = call(cfg, bs, sig_extra)
+        ctx.state(("reuse", model.name, V, call_no, which) + tuple(str(cfg[d]) for d in _DIMS))
+        sig_extra = {"reused_object": call_no > 1, "changed": changed if call_no > 1 else [],
+                     "second_object_sharing_lm": bool(const_changed)}
+        got = call(cfg, objs[which], sig_extra)
         ctx.case(1, 1 if call_no > 1 and changed else 0)
         if got is None:
             return
@@ -495,18 +521,26 @@ def _check_reuse_pair(ctx, model, lm, a, b, observed, tier, seed, fresh_cache=No
         if steps is not None:
             ok = _check_steps(ctx, case, model, cfg["offs"], cfg["eos"], cfg["fap"], steps,
                               {"call": call_no, "changed": changed}) is not None and ok
-        fr = fresh(cfg)
-        if fr is not None:
-            f_elems, _, f_raw = fr
-            same = all(_same_slots(x, y) for x, y in zip(elems, f_elems)) and raw == f_raw
-            if not same:
-                ctx.violation({"api": BS, "symptom": "reused-object-differs-from-fresh", "changed": changed,
-                               "call": call_no}, case,
-                              {"reused": elems, "fresh": f_elems, "reused_columns": raw, "fresh_columns": f_raw})
-                ok = False
+        if equal_to_fresh(got, cfg) is False:
+            fr = fresh(cfg)
+            ctx.violation({"api": BS, "symptom": "reused-object-differs-from-fresh", "changed": changed,
+                           "call": call_no, "second_object_sharing_lm": bool(const_changed)}, case,
+                          {"reused": elems, "fresh": fr[0], "reused_columns": raw, "fresh_columns": fr[2]})
+            ok = False
         if ok:
             ctx.traces += 1
             ctx.count("object_reuse_calls_equal_to_fresh")
+    if const_changed:
+        # constants reassigned on a live object: executed and counted, never judged
+        scratch = Ctx()
+        try:
+            c = _new_object(lm, a, False)
+            call(a, c, {}, scratch)
+            _set_attrs(c, b)
+            honoured = equal_to_fresh(call(b, c, {}, scratch), b)
+        except Exception:
+            honoured = None
+        ctx.count("constants_reassigned_honoured" if honoured else "constants_reassigned_ignored")
 
 
 def _check_reuse(ctx, model, lm, tier, seed):
@@ -584,7 +618,7 @@ def _variants(model, lm, lm_grad, slm, cfg):
         bs.width = w
         return bs(init(), bsz, m)
 
-    yield "width-as-stored-attribute", True, 1e-6, True, attr
+    yield "width-as-stored-attribute", "count", 1e-6, True, attr  # a reassigned constant: counted, not judged
     if all(o == 0 for o in offs):
         yield "initial-state-empty-dict", True, 1e-6, True, lambda: mk()({}, bsz, m)
         yield "initial-state-None", True, 1e-6, True, lambda: mk()(None, bsz, m)
@@ -633,6 +667,15 @@ def _check_variant_cfg(ctx, model, lm, lm_grad, slm, cfg, tier, seed, only=None)
         if only is not None and name != only:
             continue
         vcase = dict(case, variant=name)
+        if strict == "count":
+            scratch = Ctx()
+            try:
+                got = _run_search(scratch, vcase, lm, w, eos, fap, m, bsz, offs, False, caller=thunk)
+                honoured = got is not None and all(_same_slots(x, y, tol) for x, y in zip(got[0], base[0]))
+            except Exception:
+                honoured = False
+            ctx.count("constants_reassigned_honoured" if honoured else "constants_reassigned_ignored")
+            continue
         if not strict:
             try:
                 out = thunk()
@@ -679,6 +722,128 @@ def _check_variants(ctx, model, tier, seed):
         ctx.capped.append("torchscript variants skipped (harness LM not scriptable)")
     for cfg in _variant_configs(model.V, model.depth):
         _check_variant_cfg(ctx, model, lm, lm_grad, slm, cfg, tier, seed)
+
+
+# ---------------------------------------------------------------------------------------------
+# object lifecycle: the module after deepcopy / pickle / torch.save+load / state_dict round trips ...
+# ---------------------------------------------------------------------------------------------
+_LIFE_KINDS = ("deepcopy", "pickle", "torch.save", "used+deepcopy", "eval+deepcopy", "state_dict",
+               "state_dict-after-use", "double-float", "state_dict-into-other")
+_LIFE_BATCHES = ((3, (0, 1, 2)), (None, (1,)), (1, (2,)))
+
+
+def _life_configs(V):
+    """constructor options incl. FALSY-but-legal ones: eos 0 (also spelled -V), pad_value 0, flag False"""
+    out = []
+    for eos in (0, V - 1, None, -V, -1):
+        for fap, pad in ((False, None), (True, 0)):
+            out.append({"width": 2 if pad is None else 3, "eos": eos, "fap": fap and eos is not None, "pad_value": pad})
+    return out
+
+
+def _norm_eos(eos, V):
+    return None if eos is None else (eos + V) % V
+
+
+def _check_lifecycle_cfg(ctx, model, other_model, slm, cfg, T, tier, seed, only=None):
+    import copy
+    import io
+
+    from mc import guards
+
+    V = model.V
+    case = {"kind": "lifecycle", "V": V, "T": T, "table": model.name, "seed": seed, "tier": tier, "cfg": cfg}
+    w, eos, fap = cfg["width"], _norm_eos(cfg["eos"], V), cfg["fap"]
+    ref_lm = TableLM(model)  # only carries V / the model name for _run_search
+    other = {"width": w + 1, "eos": 1 if eos == 0 else 0, "fap": not fap, "pad_value": 0 if cfg["pad_value"] is None else None}
+
+    def build(mdl, c):
+        return _new_object(TableLM(mdl, trainable=True), c, False)
+
+    def make():
+        return build(model, cfg)
+
+    def make_other():
+        return build(other_model, other)
+
+    def used(obj):
+        obj.lm.calls_left = 10 ** 9
+        obj({"off": torch.tensor([0, 1, 2])}, 3, T)
+
+    def run(obj, c_w, c_eos, c_fap, bsz, offs, name, ctx_=ctx):
+        def caller():
+            if hasattr(obj, "lm") and hasattr(obj.lm, "calls_left"):
+                obj.lm.calls_left = STEP_CAP
+            return obj({"off": torch.tensor(list(offs), dtype=torch.long)}, bsz, T)
+
+        return _run_search(ctx_, dict(case, lifecycle=name, batch_size=bsz, offs=list(offs)), ref_lm, c_w, c_eos,
+                           c_fap, T, bsz, offs, False, sig_extra={"lifecycle": name}, caller=caller)
+
+    variants = []
+    for kind in _LIFE_KINDS:
+        if only is not None and kind != only:
+            continue
+        try:
+            variants.extend(guards.lifecycle_variants(make, used, kinds=[kind], make_other=make_other))
+        except Exception as e:  # building the variant itself failed (or eval mode lost)
+            ctx.case(1, 1)
+            ctx.violation({"api": BS, "symptom": "lifecycle-operation-fails", "lifecycle": kind,
+                           "type": type(e).__name__}, dict(case, lifecycle=kind), {"error": repr(e)[-300:]})
+    if slm is not None and only in (None, "scripted+jit.save-load", "scripted+deepcopy"):
+        try:
+            mk = lambda: torch.jit.script(_new_object(slm, cfg, False))  # noqa: E731
+            buf = io.BytesIO()
+            torch.jit.save(mk(), buf)
+            buf.seek(0)
+            variants.append(("scripted+jit.save-load", torch.jit.load(buf)))
+            variants.append(("scripted+deepcopy", copy.deepcopy(mk())))
+        except Exception as e:
+            ctx.case(1, 1)
+            ctx.violation({"api": BS, "symptom": "lifecycle-operation-fails", "lifecycle": "scripted",
+                           "type": type(e).__name__}, dict(case, lifecycle="scripted"), {"error": repr(e)[-300:]})
+    fresh_obj, exp_other_obj = make(), build(model, other)
+    for bsz, offs in _LIFE_BATCHES:
+        fresh = run(fresh_obj, w, eos, fap, bsz, offs, "fresh")
+        ctx.case(1, 0)
+        exp_other = None
+        for name, obj in variants:
+            into_other = name == "state_dict-into-other"
+            c_w, c_eos, c_fap = (other["width"], other["eos"], other["fap"]) if into_other else (w, eos, fap)
+            if into_other and exp_other is None:
+                exp_other = run(exp_other_obj, c_w, c_eos, c_fap, bsz, offs, "fresh-with-other-options")
+            want = exp_other if into_other else fresh
+            ctx.case(1, 1)
+            ctx.transitions += 1
+            ctx.state(("life", model.name, V, name, str(cfg), bsz, offs))
+            got = run(obj, c_w, c_eos, c_fap, bsz, offs, name)
+            if got is None or want is None:
+                continue
+            ok = True
+            for n, o in enumerate(offs):
+                ref = O.reference_beam(model, o, c_w, c_eos, c_fap, T)
+                ok = _check_elem(ctx, dict(case, lifecycle=name, batch_size=bsz, offs=list(offs)), model, o, c_eos,
+                                 c_fap, c_w, T, got[0][n], ref, O.complete_sequences(model, o, c_eos, T),
+                                 {"batch_size": bsz, "N": len(offs), "element": n, "offs": list(offs),
+                                  "lifecycle": name}) and ok
+            if not (all(_same_slots(x, y) for x, y in zip(got[0], want[0])) and got[2] == want[2]):
+                ctx.violation({"api": BS, "symptom": "lifecycle-variant-differs-from-fresh", "lifecycle": name,
+                               "eos_is_token_0": eos == 0, "pad_value_0": cfg["pad_value"] == 0},
+                              dict(case, lifecycle=name, batch_size=bsz, offs=list(offs)),
+                              {"variant": got[0], "fresh": want[0], "variant_columns": got[2], "fresh_columns": want[2]})
+                ok = False
+            if ok:
+                ctx.traces += 1
+                ctx.count("lifecycle_variant_calls_equal_to_fresh")
+                ctx.outcome(("life", name))
+
+
+def _check_lifecycle(ctx, model, other_model, tier, seed):
+    try:
+        slm = torch.jit.script(ScriptTableLM(model))
+    except Exception:
+        slm = None
+    for cfg in _life_configs(model.V):
+        _check_lifecycle_cfg(ctx, model, other_model, slm, cfg, model.depth, tier, seed)
 
 
 # ---------------------------------------------------------------------------------------------
@@ -836,6 +1001,9 @@ def run_shard(spec, tier, seed):
         _check_reuse(ctx, model, TableLM(model), tier, seed)
     elif spec["kind"] == "variants":
         _check_variants(ctx, O.make_model(V, T, spec["table"], seed), tier, seed)
+    elif spec["kind"] == "lifecycle":
+        _check_lifecycle(ctx, O.make_model(V, T, spec["table"], seed),
+                         O.make_model(V, T, "flat" if spec["table"] != "flat" else "seeded-0", seed + 1), tier, seed)
     else:
         model = O.make_model(V, T, spec["table"], seed)
         for eos in [None] + list(range(V)):
@@ -865,6 +1033,14 @@ def replay(case):
         model = O.make_model(V, T, case["table"], seed)
         a, b = (dict(c, offs=tuple(c["offs"])) for c in (case["first"], case["second"]))
         _check_reuse_pair(ctx, model, TableLM(model), a, b, case["observed"], tier, seed)
+    elif case["kind"] == "lifecycle":
+        model = O.make_model(V, T, case["table"], seed)
+        other = O.make_model(V, T, "flat" if case["table"] != "flat" else "seeded-0", seed + 1)
+        try:
+            slm = torch.jit.script(ScriptTableLM(model))
+        except Exception:
+            slm = None
+        _check_lifecycle_cfg(ctx, model, other, slm, case["cfg"], T, tier, seed, only=case.get("lifecycle"))
     elif case["kind"] == "variants":
         model = O.make_model(V, T, case["table"], seed)
         cfg = dict(case["cfg"], offs=tuple(case["cfg"]["offs"]))
